@@ -592,7 +592,7 @@ def finish(ctx: Ctx, level_text: str = "") -> int:
         if key in seen_sig:
             continue
         seen_sig.add(key)
-        if len(seen_sig) > 5:
+        if len(seen_sig) > getattr(ctx, "max_violation_lines", 5):   # a check may raise the cap (default 5)
             break
         p = write_replay(ctx, f"{v.clause}_{len(seen_sig)}", dict(
             kind="input", clause=v.clause, case=v.case, impl_observed=v.observed,
